@@ -149,10 +149,16 @@ fn baseline(b: u64) -> Plan {
         "stats_dir_gone" => 2_500 + rng.below(3_000),
         _ => 270,
     };
-    if rng.chance(1, 4) {
-        // the wall clock is stepped while the server runs (exit must not wait for a wall-clock instant)
-        let span = plan.world.horizon_ms * 1000;
-        plan.step(25_000 + rng.below(span.saturating_sub(25_000).max(1)), Action::WallStepMs(*rng.pick(&[-3_600_000i64, -61_000, -1000, 1000, 61_000, 86_400_000])));
+    let stats_on = s.client_stats.is_some();
+    if rng.chance(1, if stats_on { 2 } else { 4 }) {
+        // the wall clock is stepped while the server runs, early in the baseline so that most
+        // signal instants come after it (exit must not depend on a wall-clock instant; with the
+        // reporter running, mostly backwards: a schedule kept on the wall clock then lies in the future)
+        let span = (plan.world.horizon_ms * 1000).min(150_000);
+        let back = [-3_600_000i64, -61_000, -11_000, -1_500];
+        let any = [-3_600_000i64, -61_000, -1000, 1000, 61_000, 86_400_000];
+        let ms = if stats_on && rng.chance(3, 4) { *rng.pick(&back) } else { *rng.pick(&any) };
+        plan.step(25_000 + rng.below(span.saturating_sub(25_000).max(1)), Action::WallStepMs(ms));
     }
     plan.server = Some(s);
     plan
